@@ -10,5 +10,6 @@ cd /verif
 VERIF_REPO="$wt" ./check "$id" --tier "$tier"
 rc=$?
 git -C /repo worktree remove --force "$wt"
-rm -rf "/verif/.work/$id-"* 2>/dev/null
+tag=$(printf %s "$wt" | sha1sum | cut -c1-8)
+rm -rf "/verif/.work/$id-$tag" 2>/dev/null
 exit $rc
